@@ -51,7 +51,7 @@ def _set_cur(e):
     _CUR = e
 
 
-QUERY_TIMEOUT_MS = 20000
+QUERY_TIMEOUT_MS = 60000
 
 
 # --------------------------------------------------------------------------
@@ -436,6 +436,20 @@ def sym_round(x, n=None):
 
 
 def _round_half_even_int(t):
+    """z3 Int term equal to round-half-even(t).  With an active engine the
+    result is a fresh integer pinned by linear constraints (much easier for
+    the solver than ToInt/ite/mod chains)."""
+    if _CUR is not None:
+        eng = _CUR
+        key = ("rhe", z3.simplify(t).get_id())
+        if key in eng.memo:
+            return eng.memo[key][1]
+        r = z3.Int(f"round!{next(eng.counter)}")
+        rr = z3.ToReal(r)
+        half = z3.RealVal("1/2")
+        eng.solver.add(rr - half <= t, t <= rr + half, z3.Implies(t == rr + half, r % 2 == 0), z3.Implies(t == rr - half, r % 2 == 0))
+        eng.memo[key] = (t, r)
+        return r
     fl = z3.ToInt(t)
     frac = t - z3.ToReal(fl)
     half = z3.RealVal("1/2")
